@@ -421,15 +421,33 @@ def collect_unit(unit, vacuity=False):
             'path': path, 'verified': vr.get('verified', 0), 'nerrors': vr.get('errors', 0)}
 
 
-def collect(vacuity=False):
-    """run every verification unit and merge: function names of different units never collide (prefix filter)"""
+P256_CORE = {'name': 'core-p256', 'build': 'core', 'flags': ['--cfg', 'feature="p256"'], 'prefixes': None, 'trusted': 'trusted.txt', 'confirm': True}
+
+
+def collect(vacuity=False, tier='quick'):
+    """run every verification unit and merge: function names of different units never collide (prefix filter).
+    thorough tier: the core unit is verified a second time in the p256 configuration (MAXDHLEN = 65, DHChoice::P256)"""
     units = [collect_unit(u, vacuity=vacuity) for u in UNITS]
+    confirm = []
+    if tier == 'thorough' and not vacuity:
+        confirm = [collect_unit(P256_CORE, vacuity=False)]
     res = {'units': units, 'funcs': {}, 'errors': [], 'cache_hit': all(u['cache_hit'] for u in units),
            'wall_s': sum(u['wall_s'] for u in units), 'verified': sum(u['verified'] for u in units), 'nerrors': sum(u['nerrors'] for u in units),
            'ex': units[0]['ex'], 'model': units[0]['model']}
     for u in units:
         res['funcs'].update(u['funcs'])
         res['errors'] += u['errors']
+    for u in confirm:      # same functions again under another configuration: a function is discharged only if both agree
+        for fn, st in u['funcs'].items():
+            if fn in res['funcs']:
+                res['funcs'][fn]['ok'] = res['funcs'][fn]['ok'] and st['ok']
+                res['funcs'][fn]['ms'] += st['ms']
+        for e in u['errors']:
+            e['unit'] = u['unit']['name']
+            res['errors'].append(e)
+        res['wall_s'] += u['wall_s']
+        res['cache_hit'] = res['cache_hit'] and u['cache_hit']
+    res['confirm_units'] = [{'unit': u['unit']['name'], 'verified_functions': u['verified'], 'failed_functions': u['nerrors'], 'verus_wall_s': round(u['wall_s'], 1)} for u in confirm]
     return res
 
 
@@ -553,7 +571,7 @@ def check_property(pid, tier, res=None, vres=None, quiet=False):
     t0 = time.time()
     seed = int(os.environ.get('VERIF_SEED', '0') or 0)
     if res is None:
-        res = collect(vacuity=False)
+        res = collect(vacuity=False, tier=tier)
     obs = obligations(res)
     mine = {k: v for k, v in obs.items() if pid in v['props']}
     if not mine:
@@ -698,6 +716,7 @@ def check_property(pid, tier, res=None, vres=None, quiet=False):
         'coverage': {
             'obligations': n_ob, 'discharged': n_dis,
             'checker_cmd': ' ; '.join('verus %s %s' % (os.path.relpath(u['path'], ROOT), ' '.join(VERUS_FLAGS + u['unit']['flags'])) for u in res['units']),
+            'second_configuration_p256_MAXDHLEN_65': res.get('confirm_units') or 'thorough tier only',
             'path_split_verification': [x for u in res['units'] for x in getattr(u['model'], 'split_info', [])],
             'units': [{'unit': u['unit']['name'], 'verus_wall_s': round(u['wall_s'], 1), 'cache_hit': u['cache_hit'], 'verified_functions': u['verified'], 'failed_functions': u['nerrors'],
                        'extraction_rule_sites': u['ex'].counts, 'not_in_verified_text': u['ex'].dropped} for u in res['units']],
@@ -799,7 +818,7 @@ def main(argv):
         return 2
     rc = 0
     try:
-        res = collect(vacuity=False)
+        res = collect(vacuity=False, tier=tier)
         vres = None
         if tier == 'thorough' or os.environ.get('VERIF_VACUITY', '1') == '1':
             vres = collect(vacuity=True)
